@@ -53,7 +53,7 @@ let op_of (s : string) : nat * iop =
   | "J" :: d :: _ -> (nat_of_int (int_of_string d), OpJson)
   | _ -> failwith ("op " ^ s)
 
-let res_str = function ROk -> "ok" | RSkip -> "skip" | RLogic -> "!L"
+let res_str = function IrOk -> "ok" | IrSkip -> "skip" | IrLogic -> "!L"
 
 let iso_handler sh = fun args ->
   let hist = match args with [] -> "" | h :: _ -> h in
